@@ -13,11 +13,8 @@ from .ctx import Ctx, PathAbort, explore_sub
 from . import types as T
 
 
-def _const_ids(t, _cache={}):
-    """ids of the uninterpreted constants occurring in a z3 term"""
-    key = t.get_id()
-    if key in _cache:
-        return _cache[key]
+def _const_ids(t):
+    """ids of the uninterpreted constants occurring in a z3 term (no caching: z3 AST ids are reused after GC)"""
     out = set()
     seen = set()
     stack = [t]
@@ -33,16 +30,11 @@ def _const_ids(t, _cache={}):
         if z3.is_const(e) and e.decl().kind() == z3.Z3_OP_UNINTERPRETED:
             out.add(i)
         stack.extend(e.children())
-    if len(_cache) < 20000:
-        _cache[key] = out
     return out
 
 
-def _decl_ids(t, _cache={}):
+def _decl_ids(t):
     """ids of the uninterpreted function declarations (arity >= 1) applied in a z3 term"""
-    key = t.get_id()
-    if key in _cache:
-        return _cache[key]
     out = set()
     seen = set()
     stack = [t]
@@ -58,8 +50,6 @@ def _decl_ids(t, _cache={}):
         if z3.is_app(e) and e.num_args() > 0 and e.decl().kind() == z3.Z3_OP_UNINTERPRETED:
             out.add(e.decl().get_id())
         stack.extend(e.children())
-    if len(_cache) < 20000:
-        _cache[key] = out
     return out
 
 
@@ -1146,7 +1136,14 @@ class Interp:
         args, kwargs = [], {}
         for a in node.args:
             if isinstance(a, ast.Starred):
-                args.extend(self.iter_concrete(self.ev(a.value, env), a))
+                sv = self.ev(a.value, env)
+                if self.concrete_iter(sv) is None and len(node.args) == 1 and not node.keywords \
+                        and isinstance(fv, VFunc) and fv.kind == "extern" and fv.name == "itertools.chain":
+                    # chain(*nested) over a symbolic sequence of iterables == chain.from_iterable(nested)
+                    acc = self.born(VList(ConcreteSeq([]), "generator"))
+                    self.for_values(sv, lambda inner: self.for_values(inner, lambda x: self.mutate_append(acc, x, node), node), node)
+                    return acc
+                args.extend(self.iter_concrete(sv, a))
             else:
                 args.append(self.ev(a, env))
         for kw in node.keywords:
@@ -1574,6 +1571,19 @@ class Interp:
             r = self.externs.inplace_op(self, type(node.op).__name__, cur, rhs, node)
             if r is not None:
                 return
+            if isinstance(cur, VList) and cur.kind == "ndarray":
+                # numpy in-place arithmetic mutates the array object: a frame obligation unless the array was
+                # created by this call
+                new = self.binop(node.op, cur, rhs, node)
+                if id(cur) not in self.birth and not self.spec_mode:
+                    short = (self.current_qualname or "").replace("pyrepseq.", "")
+                    self.ctx.oblige(f"{short}/frame[{t.id} mutated in place @L{node.lineno}]", z3.BoolVal(False),
+                                    kind="frame", line=node.lineno)
+                if isinstance(new, VList):
+                    cur.content = new.content
+                    if getattr(new, "poly", None) is not None:
+                        cur.poly = new.poly
+                    return
             if isinstance(cur, Value) and cur.mutable and not isinstance(cur, VObj):
                 self.unsupported(node, f"augmented assignment on {cur!r}")
             self.assign(t, self.binop(node.op, cur, rhs, node), env, node)
@@ -1600,7 +1610,8 @@ class Interp:
         for fr in frames:
             bvars.extend(fr["bvars"])
         start = frames[0]["pc_mark"]
-        conj = [t for t, _ in self.ctx.pc[start:]]
+        entries = list(self.ctx.pc[start:])
+        conj = [t for t, _ in entries]
         bids = {v.get_id() for v in bvars}
         fresh = [c for c in frames[0].get("fresh", []) if c.get_id() not in bids]
         used = set()
@@ -1609,15 +1620,20 @@ class Interp:
         used |= _value_const_ids(elem)
         hvars = [c for c in fresh if c.get_id() in used]
         hids = {c.get_id() for c in hvars}
-        # symbols (functions) created in the body, e.g. the dict returned by a callee's contract: what is known
-        # about them is knowledge (cond_h), never something to establish
         fids = {f.get_id() for f in frames[0].get("fresh_funs", [])}
-        loop_part = [t for t in conj if not (_const_ids(t) & hids) and not (fids and (_decl_ids(t) & fids))]
-        hav_part = [t for t in conj if (_const_ids(t) & hids) or (fids and (_decl_ids(t) & fids))]
-        cond = z3.And(*loop_part) if loop_part else z3.BoolVal(True)
-        cond_h = z3.And(*hav_part) if hav_part else z3.BoolVal(True)
+
+        def computed(t):
+            return bool(_const_ids(t) & hids) or bool(fids and (_decl_ids(t) & fids))
+        # knowledge: facts assumed from callee contracts / library contracts (labelled entries);
+        # decisions: branch conditions and loop ranges (unlabelled entries)
+        know = [t for t, lab in entries if lab is not None]
+        dec_plain = [t for t, lab in entries if lab is None and not computed(t)]
+        dec_comp = [t for t, lab in entries if lab is None and computed(t)]
+        cond = z3.And(*dec_plain) if dec_plain else z3.BoolVal(True)
+        cond_h = z3.And(*know) if know else z3.BoolVal(True)
+        cond_d = z3.And(*dec_comp) if dec_comp else z3.BoolVal(True)
         label = f"L{getattr(node, 'lineno', '?')}"
-        frames[0]["emits"].append((target, Site(label, bvars, cond, elem, hvars, cond_h)))
+        frames[0]["emits"].append((target, Site(label, bvars, cond, elem, hvars, cond_h, cond_d)))
 
     def _unused(self):
         pass
@@ -1785,9 +1801,11 @@ class Interp:
             if not opts:
                 raise PathAbort()
             ci = ctx.choose([z3.BoolVal(True)] * len(opts), label or "") if len(opts) > 1 else 0
-            bvars, cond, elem, _ = opts[ci]
+            bvars, cond, elem = opts[ci][0], opts[ci][1], opts[ci][2]
             frame["bvars"] = list(bvars)
-            ctx.assume(cond)
+            ctx.assume(cond, decision=True)
+            if len(opts[ci]) > 4:
+                ctx.assume(opts[ci][4])
             e = Env(env.module, parent=env, func=env.func) if child_env else env
             if child_env:
                 e.local_names = set()
